@@ -24,7 +24,12 @@ import (
 var c04Kinds = []struct{ name, lit string }{
 	{"null", "null"}, {"bool", "true"}, {"int", "7"}, {"float", "2.5"}, {"str", `"s"`}, {"arr", "[1, 2]"}, {"obj", "{a: 1}"},
 	{"zero", "0"}, {"maxint", "9223372036854775807"}, {"minint", "-9223372036854775807 - 1"}, {"neg1", "-1"}, {"emptystr", `""`}, {"emptyarr", "[]"},
+	// values that arrive with the request rather than from a literal (the matrix request carries them):
+	// an undeclared query parameter given twice, one the server auto-converts, a header value
+	{"qrep", "query.rep"}, {"qauto", "query.num"}, {"hdr", `headers["X-H"]`},
 }
+
+const c04MatrixURL = "http://verif.test/m?rep=a&rep=b&num=5"
 
 var c04Leak = []*regexp.Regexp{
 	regexp.MustCompile(`goroutine \d+`), regexp.MustCompile(`\.go:\d+`), regexp.MustCompile(`runtime error`),
@@ -203,7 +208,9 @@ func runC04MatrixInner(c c04Case) evid.Outcome {
 		return evid.Outcome{Labels: []string{"rejected-at-startup"}}
 	}
 	defer srv.shutdown()
-	r := srv.do(httptest.NewRequest("GET", "http://verif.test/m", nil))
+	rq := httptest.NewRequest("GET", c04MatrixURL, nil)
+	rq.Header.Set("X-H", "hv")
+	r := srv.do(rq)
 	if f := c04Check(r, c.Label+" ["+c.Mode+"]"); f != nil {
 		f.Msg += "\n--- source ---\n" + c.Src
 		return evid.Outcome{Fail: f}
